@@ -264,6 +264,9 @@ func (c *vfSimConn) handleFetch(version int16, body []byte) ([]byte, string) {
 		if f.MoveLeader == "before" {
 			s.moveLeaderLocked(fp.topic, fp.part, -2)
 		}
+		if f.LeaderlessFor > 0 {
+			s.leaderlessLocked(fp.topic, fp.part, f.LeaderlessFor)
+		}
 		t := s.topics[fp.topic]
 		m := s.logs[key[len("fetch/"):]]
 		switch {
